@@ -16,7 +16,7 @@ VERIF = os.path.dirname(os.path.dirname(os.path.abspath(__file__)))
 REPO = os.environ.get('LOGICA_REPO', '/repo')
 SPEC = os.path.join(VERIF, 'spec')
 BUILD = os.path.join(VERIF, 'build')
-EVIDENCE = os.path.join(VERIF, 'evidence')
+EVIDENCE = os.environ.get('VERIF_EVIDENCE_DIR') or os.path.join(VERIF, 'evidence')
 PY = '/venv/bin/python'
 NCPU = min(16, os.cpu_count() or 1)
 
